@@ -38,6 +38,7 @@ func TestMain(m *testing.M) {
 		Probes: []vk.Probe{
 			{ID: kV0MD, Present: probeV0MD},
 			{ID: kBlLeaf, Present: probeBlLeaf},
+			{ID: kBlLag, Present: probeBlLag},
 			{ID: kTxByID, Present: probeTxByID},
 			{ID: kGetKey, Present: probeGetKey},
 			{ID: kHdrEh, Present: probeHdrEh},
